@@ -6,6 +6,7 @@ import (
 	"crypto/tls"
 	"crypto/x509"
 	"crypto/x509/pkix"
+	"fmt"
 	"io"
 	"math/big"
 	"testing"
@@ -37,6 +38,8 @@ type linkCase struct {
 	// not-self-signed, no-extension: the client is a raw quic endpoint presenting a forged chain claiming identity Victim
 	Forge  string `json:"forge"`
 	Victim int    `json:"victim"`
+	// Knocks: how many handshakes the client side attempts in a row (from fresh sockets) while it keeps being refused
+	Knocks int `json:"knocks,omitempty"`
 }
 
 func genLink(t *rapid.T) linkCase {
@@ -48,6 +51,14 @@ func genLink(t *rapid.T) linkCase {
 	}
 	c.Server = (c.Client + 1 + rapid.IntRange(0, 1).Draw(t, "ds")) % 3
 	c.Victim = 3 + rapid.IntRange(0, 1).Draw(t, "victim")
+	c.Knocks = rapid.SampledFrom([]int{1, 1, 2, 3}).Draw(t, "knocks")
+	if c.ServerExpect == "wrong" && c.Forge == "" {
+		// the interesting repeated knock: a well-formed client that is simply not the required peer
+		c.Knocks = rapid.SampledFrom([]int{1, 2, 2, 3}).Draw(t, "knocks2")
+	}
+	if rapid.IntRange(0, 5).Draw(t, "forcewrong") == 0 {
+		c.ServerExpect, c.Forge, c.Knocks = "wrong", "", 2
+	}
 	return c
 }
 
@@ -148,12 +159,46 @@ func checkLink(c linkCase) (o vstat.Outcome) {
 		conf := &tls.Config{MinVersion: tls.VersionTLS13, InsecureSkipVerify: true, Certificates: []tls.Certificate{cert}, NextProtos: []string{transport_quic.Alpn}} //nolint:gosec
 		csess, cerr = quic.Dial(ctx, pcC, memAddr("server"), conf, transport_quic.BuildQuicConfig(&transport_quic.Opts{}))
 	}
+	// a refused client tries again (from a fresh socket): the listener has then seen several handshakes
+	var early *sres
+	for k := 1; k < c.Knocks && ctx.Err() == nil; k++ {
+		// only while the listener has not accepted anybody yet
+		select {
+		case r := <-sch:
+			early = &r
+		case <-time.After(150 * time.Millisecond):
+		}
+		if early != nil {
+			break
+		}
+		pcK := nw.listen(memAddr(fmt.Sprintf("client-%d", k)))
+		defer pcK.Close()
+		if c.Forge == "" {
+			dctx, dcancel := context.WithTimeout(ctx, 1500*time.Millisecond)
+			s, _, err := transport_quic.DialSession(dctx, quietLog, &transport_quic.Opts{}, pcK, identC, memAddr("server"), cExp)
+			dcancel()
+			csess, cerr = s, err
+		} else {
+			cert, err := forgedCert(c)
+			if err != nil {
+				break
+			}
+			conf := &tls.Config{MinVersion: tls.VersionTLS13, InsecureSkipVerify: true, Certificates: []tls.Certificate{cert}, NextProtos: []string{transport_quic.Alpn}} //nolint:gosec
+			dctx, dcancel := context.WithTimeout(ctx, 1500*time.Millisecond)
+			csess, cerr = quic.Dial(dctx, pcK, memAddr("server"), conf, transport_quic.BuildQuicConfig(&transport_quic.Opts{}))
+			dcancel()
+		}
+		o.Classes = append(o.Classes, "repeated-knock")
+	}
 	var sr sres
 	// the server normally completes right after the client; when a refusal is expected only a bounded
 	// grace period is spent waiting for a (wrong) acceptance - a late acceptance could only be missed.
 	grace := 4 * time.Second
 	if c.ServerExpect == "wrong" || c.Forge != "" || cerr != nil {
 		grace = 700 * time.Millisecond
+	}
+	if early != nil {
+		sch <- *early
 	}
 	select {
 	case sr = <-sch:
